@@ -70,6 +70,27 @@ func main() {
 				f.WriteTo(os.Stdout)
 			}
 		}
+	case "writes":
+		env := NewTypeEnv()
+		env.addrFields = P.addrFields
+		for k, f := range P.fnByKey {
+			if *fnFilter != "" && strings.Contains(k, *fnFilter) && P.isClover(f) {
+				fmt.Println(k)
+				for _, b := range f.Blocks {
+					for _, in := range b.Instrs {
+						w := P.instrWrites(env, f, in)
+						if len(w) > 0 {
+							var ks []string
+							for c := range w {
+								ks = append(ks, c)
+							}
+							sort.Strings(ks)
+							fmt.Printf("   %-60.60s -> %v\n", in.String(), ks)
+						}
+					}
+				}
+			}
+		}
 	case "check":
 		code := runCheck(P, CheckOpts{Prop: *prop, Tier: *tier, FnFilter: *fnFilter, ObFilter: *obFilter, OutDir: *outDir, Evidence: *evidence, Verbose: *verbose, NoBaseline: *noBaseline, UpdateBaseline: *updateBaseline})
 		os.Exit(code)
